@@ -82,6 +82,36 @@ func WorkerMain(name string, heapMiB int) int {
 	}
 }
 
+// OneShotMain is the body of `vcheck oneshot <name> <reqfile> <outfile>`: one
+// request from a file, the reply (same JSON as the worker protocol) to a file.
+// Used when the process must not depend on pipe reads (syscall fault injection).
+func OneShotMain(name, reqFile, outFile string) int {
+	h := handlers[name]
+	if h == nil {
+		return 3
+	}
+	req, err := os.ReadFile(reqFile)
+	if err != nil {
+		return 4
+	}
+	os.WriteFile(outFile+".started", []byte("1"), 0o644)
+	rp := runOne(h, req)
+	b, _ := json.Marshal(rp)
+	if os.WriteFile(outFile, b, 0o644) != nil {
+		return 5
+	}
+	return 0
+}
+
+// OneShotReply decodes a reply file written by OneShotMain.
+func OneShotReply(b []byte) (ok bool, resp []byte, panicMsg, stack string, err error) {
+	var rp reply
+	if err = json.Unmarshal(b, &rp); err != nil {
+		return
+	}
+	return rp.OK, rp.Resp, rp.Panic, rp.Stack, nil
+}
+
 func runOne(h Handler, req []byte) (rp reply) {
 	defer func() {
 		if r := recover(); r != nil {
